@@ -24,7 +24,8 @@
    shortest behaviour on which a mutated design violates a property, and that behaviour is replayed as a *schedule* on
    the real code under the property observers: the unchanged code passes, an implementation that has the bug fails.
      "no_inval" "partial_ok" "no_old_recv" "le_old" "no_old_send" "no_clear_req" "eph_in_dosend" "eph_ffwd"
-     "no_rerequest" "bal_all_pubs" "no_required" "prefetch_first_hop" "no_unregister" "id_not_carried" "hello_counts" *)
+     "no_rerequest" "bal_all_pubs" "no_required" "prefetch_first_hop" "no_unregister" "id_not_carried" "hello_counts"
+     "inval_complete_only" *)
 EXTENDS Integers, Sequences, FiniteSets, TLC
 
 CONSTANTS
@@ -260,7 +261,7 @@ ProcMsg(f, i, m, st) ==
       Others(s, inval) ==
          [j \in 1..Len(st.srcs) |->
             IF j = i THEN s
-            ELSE IF inval /\ ~SrcBal[f] /\ Eph(<<f, j>>) = 0
+            ELSE IF inval /\ ~SrcBal[f] /\ Eph(<<f, j>>) = 0 /\ (~D("inval_complete_only") \/ GotAll(srcs1[j]))
                  THEN [InitSrc(<<f, j>>, srcs1[j].conn) EXCEPT !.emin = srcs1[j].emin]
             ELSE IF ~eph /\ SrcBal[f] /\ m.topic # "" THEN [srcs1[j] EXCEPT !.reg = FALSE]
             ELSE srcs1[j]]
